@@ -112,6 +112,16 @@ def gen_array(ctx, rng, budget):
                     vals = list(pal) + [rng.choice(pal) for _ in range(m - len(pal))]
                     rng.shuffle(vals)
                     sub[...] = np.array(vals, dtype=dtype).reshape(sub.shape)
+    if k <= 3 and rng.random() < 0.15:
+        # structured family: periodic stripes / planes, so that different (possibly
+        # differently shaped edge) blocks hold identical byte sequences
+        pal = np.array(draw_labels(rng, dtype, rng.randint(2, 4), mode), dtype=dtype)
+        zz, yy, xx = np.meshgrid(np.arange(Z), np.arange(Y), np.arange(X), indexing="ij")
+        axis_mix = rng.choice([(1, 0, 0), (0, 1, 0), (0, 0, 1), (1, 1, 0), (1, 0, 1), (1, 1, 1)])
+        period = rng.randint(1, 4)
+        idx = ((axis_mix[0] * xx + axis_mix[1] * yy + axis_mix[2] * zz) // period) % len(pal)
+        for c in range(C):
+            arr[c] = pal[(idx + c) % len(pal)]
     return arr, block
 
 
